@@ -19,7 +19,7 @@ impl AdjacencyMatrix {
         ensures r == *self,
     { unimplemented!() }
 
-    /*@fn impl=AdjacencyMatrix trait=Complement name=complement
+    /*@fn impl=AdjacencyMatrix trait=Complement name=complement props=C11,C13
     requires
         self.wf(),
     ensures
@@ -44,7 +44,7 @@ impl AdjacencyMatrix {
             && (pmin(a, b) < u || (pmin(a, b) == u && pmax(a, b) < v))),
     @*/
 
-    /*@fn impl=AdjacencyMatrix trait=Converse name=converse
+    /*@fn impl=AdjacencyMatrix trait=Converse name=converse props=C11,C13
     requires
         self.wf(),
     ensures
@@ -67,7 +67,7 @@ impl AdjacencyMatrix {
         }
     @*/
 
-    /*@fn impl=AdjacencyMatrix trait=Union name=union
+    /*@fn impl=AdjacencyMatrix trait=Union name=union props=C11,C20,C13
     requires
         self.wf(),
         other.wf(),
@@ -103,7 +103,7 @@ impl AdjacencyMatrix {
         ensures r == arc_cells(*self).len(),
     { unimplemented!() }
 
-    /*@fn impl=AdjacencyMatrix trait=IsSemicomplete name=is_semicomplete
+    /*@fn impl=AdjacencyMatrix trait=IsSemicomplete name=is_semicomplete props=C12,C13
     requires
         self.wf(),
     ensures
@@ -131,7 +131,7 @@ impl AdjacencyMatrix {
         }
     @*/
 
-    /*@fn impl=AdjacencyMatrix trait=IsTournament name=is_tournament
+    /*@fn impl=AdjacencyMatrix trait=IsTournament name=is_tournament props=C12,C13
     requires
         self.wf(),
     ensures
